@@ -133,6 +133,16 @@ CATALOGUE: list[tuple] = [
     ("stream-peek-advances", ["C18", "C06"], PAIRS, "        if self.pos < len(self.pairs):\n            return self.pairs[self.pos]\n        return None", "        if self.pos < len(self.pairs):\n            self.pos += 1\n            return self.pairs[self.pos - 1]\n        return None", "fire", "Stream"),
     ("S-pair-tokens-list-form", ["C06"], PAIRS, "        yield Start(self.rule, self.start)\n        for child in self.children:\n            yield from child.tokens()\n        yield End(self.rule, self.end)", "        out: list[Token] = [Start(self.rule, self.start)]\n        for child in self.children:\n            out.extend(child.tokens())\n        out.append(End(self.rule, self.end))\n        return iter(out)", "silent", ""),
     ("S-pairs-flatten-explicit-stack", ["C06"], PAIRS, "        for pair in self._pairs:\n            yield from _flatten(pair)", "        stack = list(reversed(self._pairs))\n        while stack:\n            node = stack.pop()\n            yield node\n            stack.extend(reversed(node.children))", "silent", ""),
+    ("optimizer-rewrites-in-place", ["C15", "C02"], OPT, "                if expr is not rule.expression:\n                    # The caller may share its Rule objects with other parsers:\n                    # store a rewritten copy instead of rewriting in place.\n                    rewritten = copy.copy(rule)\n                    rewritten.expression = expr\n                    rules[name] = rewritten\n", "                rules[name].expression = expr\n", "fire", "Optimizer.optimize"),
+    ("inline-trivia-rule", ["C02"], "src/pest/grammar/optimizers/inliners.py", "            and rule.modifier == SILENT\n            and expr.value not in (\"WHITESPACE\", \"COMMENT\")\n", "            and rule.modifier & SILENT\n", "fire", "inline_silent_rules"),
+    ("squash-version1", ["C02"], CHOICE, "            self._compiled = re.compile(self.build_optimized_pattern())", "            self._compiled = re.compile(self.build_optimized_pattern(), re.VERSION1)", "fire", "O13"),
+    ("cistring-unicode-folding", ["C12", "C02"], TERMINALS, "        self._re = re.compile(re.escape(value), re.I | re.A)", "        self._re = re.compile(re.escape(value), re.I)", "fire", ""),
+    ("squash-class-nonascii-case", ["C02", "C12"], CHOICE, "                if val.isascii():\n                    char_class_parts.append(val.upper())\n                    char_class_parts.append(val.lower())\n                else:\n                    char_class_parts.append(val)", "                char_class_parts.append(val.upper())\n                char_class_parts.append(val.lower())", "fire", ""),
+    ("trivia-comment-after-one-whitespace", ["C04"], STATE, "                        children.clear()\n                        # pest: WHITESPACE* ~ (COMMENT ~ WHITESPACE*)*\n                        continue\n", "                        children.clear()\n                        matched = True\n", "fire", "parse_trivia"),
+    ("skip-rule-unsuppressed", ["C13", "C04"], STATE, "            with self.suppress_failures():\n                return skip.parse(self, pairs)\n", "            return skip.parse(self, pairs)\n", "fire", "SKIP"),
+    ("identifier-no-push-guard", ["C10"], SCANNER, "RE_IDENTIFIER = re.compile(r\"(?!PUSH)[_a-zA-Z][_a-zA-Z0-9]*\")", "RE_IDENTIFIER = re.compile(r\"[_a-zA-Z][_a-zA-Z0-9]*\")", "fire", "RE_IDENTIFIER"),
+    ("tag-lookahead-whitespace-only", ["C10"], SCANNER, "RE_TAG = re.compile(r\"#[_a-zA-Z][_a-zA-Z0-9]*\")", "RE_TAG = re.compile(r\"#[_a-zA-Z][_a-zA-Z0-9]*(?=\\s*=)\")", "fire", "RE_TAG"),
+    ("S-inline-condition-reordered", ["C02"], "src/pest/grammar/optimizers/inliners.py", "            rule\n            and rule.modifier == SILENT\n            and expr.value not in (\"WHITESPACE\", \"COMMENT\")\n", "            rule is not None\n            and expr.value not in {\"COMMENT\", \"WHITESPACE\"}\n            and rule.modifier == SILENT\n", "silent", ""),
 ]
 
 
